@@ -203,6 +203,12 @@ def targeted_text_cases():
         out.append({"kind": "targeted", "tag": "two-writes/session",
                     "case": {"sql": swap + f";\ninsert into y select * from {x};\ninsert into z select * from {b}", "dialect": "vertica",
                              "metadata": {"s9.unrelated": ["q"]}}})
+    # UPDATE ... FROM two tables with the same bare name in different schemas: the table the qualifier denotes must not follow a
+    # set's iteration order (D51, repaired: the later table wins in statement order)
+    for (s1, s2, x) in [("s1", "s2", "x"), ("stg", "arch", "events"), ("a", "b", "t"), ("db1", "db2", "orders"), ("p", "q", "r"),
+                        ("left1", "right1", "k"), ("m1", "m2", "n"), ("u1", "u2", "v")]:
+        out.append({"kind": "targeted", "tag": "update-from/bare-name-clash",
+                    "case": {"sql": f"update tgt set c = {x}.d from {s1}.{x}, {s2}.{x}", "dialect": "postgres"}})
     # tables that carry role TAGS (written by a statement that reads nothing, read by a statement that writes nothing, self loop)
     # next to ordinary lineage: the three role accessors are computed from shared per-tag sets
     for (a, b, c) in [("audit", "final", "src"), ("t1", "t2", "t3"), ("log", "dst", "feed")]:
